@@ -689,6 +689,12 @@ class EqPathParallelSpecFinder(
             if not self._atom_path_match(id1, id2, sp1, sp2):
                 return EqPathParallelSpecFinder._INVALID
             sp1[id1], sp2[id2] = (), ()
+            # The classes reached may only be equivalent to the atoms: the rules that
+            # are not equivalences on the way to them have to match as well.
+            if not self._eq_path_matches(
+                id1, id2, pid1, pid2, idx1, idx2, sp1, sp2, eq_path_tracker
+            ):
+                return EqPathParallelSpecFinder._INVALID
             return EqPathParallelSpecFinder._VALID
         # If both ids are set we still need to check if they are valid in terms
         # of eq paths since we may have arrived from different parents.
